@@ -300,7 +300,7 @@ namespace
 
 namespace verif
 {
-    HarnessInfo harness_info() { return { "C08", 300 }; }
+    HarnessInfo harness_info() { return { "C08", 450 }; }
     void harness_init() { }
 
     Verdict run_case(const uint8_t* data, size_t size, Report& rep)
